@@ -180,15 +180,27 @@ pub fn pos_from_board(b: &Board) -> Result<Pos, String> {
 
 /// C17 second half: the moves really examined at every quiescence node of a real search.
 fn c17_search_log(p: &Pos, depth: u8, st: &mut Stats, origin: &str) {
+    c17_search_log_after(&[], p, depth, st, origin)
+}
+
+/// `earlier`: positions (with depths) searched first on the SAME engine without logging — as in a
+/// game, where the positions now past the horizon were interior nodes of the previous search and
+/// have entries in the engine's tables.
+fn c17_search_log_after(earlier: &[(Pos, u8)], p: &Pos, depth: u8, st: &mut Stats, origin: &str) {
     let b = eng::board_from_pos(p);
     let r = engine_call(|| {
         let mut s = Searcher::new();
+        for (q, d) in earlier.iter() {
+            s.verif_timer().node_limit = Some(150_000);
+            s.find_best_move(&eng::board_from_pos(q), *d, None);
+        }
         s.verif.qlog = Some(Vec::new());
+        s.verif.qexamined = Some(Vec::new());
         s.verif_timer().node_limit = Some(60_000); // bounds the log; an interrupted search still logs real nodes
         s.find_best_move(&b, depth, None);
-        s.verif.qlog.take().unwrap()
+        (s.verif.qlog.take().unwrap(), s.verif.qexamined.take().unwrap())
     });
-    let log = match r {
+    let (log, examined) = match r {
         Ok(l) => l,
         Err(msg) => {
             st.violation(
@@ -200,6 +212,49 @@ fn c17_search_log(p: &Pos, depth: u8, st: &mut Stats, origin: &str) {
         }
     };
     st.bump("searches_logged");
+    // second event log: every (position, move) the quiescence search really recursed into must be a
+    // member of the expected set of that position (a subset is normal: cut-offs end a node early)
+    {
+        let mut expected: std::collections::HashMap<oracle::PosKey, Vec<String>> = std::collections::HashMap::new();
+        for (qb, mv) in examined.iter() {
+            let qp = match pos_from_board(qb) {
+                Ok(q) => q,
+                Err(_) => continue,
+            };
+            let want = expected.entry(qp.key()).or_insert_with(|| {
+                let legal = qp.legal_moves();
+                if qp.in_check() {
+                    gen::describe_moves(&legal)
+                } else {
+                    gen::describe_moves(&tactical(&qp, &legal))
+                }
+            });
+            st.bump("quiescence_recursions_logged");
+            let u = mv.to_algebraic();
+            if !want.contains(&u) {
+                st.violation(
+                    format!("C17:qexamined:{}:{}", qp.to_fen(), u),
+                    format!(
+                        "past the horizon the search examined {} at {} ({}), which is {} [root {} depth {}]",
+                        u,
+                        qp.to_fen(),
+                        if qp.in_check() { "in check" } else { "not in check" },
+                        if qp.find_uci(&u).is_some() { "a legal move that neither captures, promotes nor gives check" } else { "not a legal move" },
+                        p.to_fen(),
+                        depth
+                    ),
+                    J::obj(vec![
+                        ("kind", J::s("qlog")),
+                        ("fen", J::s(p.to_fen())),
+                        ("depth", J::i(depth as i64)),
+                        ("earlier", J::Arr(earlier.iter().map(|(q, d)| J::obj(vec![("fen", J::s(q.to_fen())), ("depth", J::i(*d as i64))])).collect())),
+                        ("node", J::s(qp.to_fen())),
+                        ("examined_move", J::s(u.clone())),
+                    ]),
+                );
+            }
+        }
+    }
     for (qb, in_check, moves) in log.iter() {
         st.bump("qnodes_logged");
         let qp = match pos_from_board(qb) {
@@ -236,6 +291,7 @@ fn c17_search_log(p: &Pos, depth: u8, st: &mut Stats, origin: &str) {
                     ("kind", J::s("qlog")),
                     ("fen", J::s(p.to_fen())),
                     ("depth", J::i(depth as i64)),
+                    ("earlier", J::Arr(earlier.iter().map(|(q, d)| J::obj(vec![("fen", J::s(q.to_fen())), ("depth", J::i(*d as i64))])).collect())),
                     ("node", J::s(qp.to_fen())),
                     ("engine_only", J::arr_s(extra)),
                     ("missing", J::arr_s(missing)),
@@ -375,7 +431,10 @@ fn replay(ctx: &Ctx, which: Which, case: &J, mg: &MoveGenerator, st: &mut Stats)
                 }
             }
         }
-        "qlog" => c17_search_log(&p, case.int_of("depth") as u8, st, "replay"),
+        "qlog" => {
+            let earlier: Vec<(Pos, u8)> = case.get("earlier").and_then(|a| a.as_arr()).map(|a| a.iter().filter_map(|e| Pos::from_fen(&e.str_of("fen")).ok().map(|q| (q, e.int_of("depth") as u8))).collect()).unwrap_or_default();
+            c17_search_log_after(&earlier, &p, case.int_of("depth") as u8, st, "replay")
+        }
         _ => {
             let b = eng::board_from_pos(&p);
             visit(which, &p, &b, mg, st, "replay");
@@ -470,6 +529,22 @@ pub fn run(ctx: &Ctx) -> i32 {
                     continue;
                 }
                 let d = 1 + rng.below(2) as u8;
+                if done % 2 == 1 {
+                    // game continuation: search the position two plies earlier (deeper) first, on the
+                    // same engine, then log the search of this position
+                    let (ps, _) = gen::playout(&p, &mut rng, 2);
+                    let later = ps.last().unwrap().clone();
+                    if !later.legal_moves().is_empty() {
+                        let mut earlier = vec![(p.clone(), 3u8)];
+                        if ps.len() > 2 && rng.chance(1, 2) {
+                            earlier.push((ps[1].clone(), 2u8));
+                        }
+                        c17_search_log_after(&earlier, &later, d, &mut st, "search_log_continued_game");
+                        st.bump("searches_logged_on_an_engine_that_searched_the_game_before");
+                        done += 1;
+                        continue;
+                    }
+                }
                 c17_search_log(&p, d, &mut st, "search_log");
                 done += 1;
             }
@@ -503,9 +578,9 @@ fn spec(which: Which, replay: bool) -> Spec<'static> {
         },
         Which::C17 => Spec {
             level: "exploration",
-            rule: "cases are (a) positions not in check on which generate_quiescence_moves is compared with {legal moves that capture, promote or give check} and (b) every quiescence node logged by real depth 1-2 searches (qnodes_logged), compared with that set or, when in check, with all legal moves; distinct by position identity, non-trivial when the expected set is non-empty / the position is not in check and has legal moves",
+            rule: "cases are (a) positions not in check on which generate_quiescence_moves is compared with {legal moves that capture, promote or give check} and (b) every quiescence node logged by real depth 1-2 searches (qnodes_logged) — on fresh engines and on engines that have just searched the position two plies earlier in the same game, so that the nodes now past the horizon have table entries — compared with that set or, when in check, with all legal moves; a second event log holds every (position, move) the quiescence search actually recursed into, each of which must belong to the expected set of its position; distinct by position identity, non-trivial when the expected set is non-empty / the position is not in check and has legal moves",
             assumptions,
-            required: if replay { vec![] } else { vec!["q_ep_capture", "q_promotion", "q_quiet_check", "q_discovered_check", "qnodes_logged", "qnodes_in_check", "qnodes_not_in_check"] },
+            required: if replay { vec![] } else { vec!["q_ep_capture", "q_promotion", "q_quiet_check", "q_discovered_check", "qnodes_logged", "qnodes_in_check", "qnodes_not_in_check", "searches_logged_on_an_engine_that_searched_the_game_before", "quiescence_recursions_logged"] },
             exhaustive: false,
             extra: vec![],
         },
